@@ -1,5 +1,6 @@
 import Np.Proofs.Dispatch
 import Np.Model.Construct
+import Np.Proofs.Construct
 /-! C03 — results are well-formed and regenerate from their attributes: property theorems -/
 namespace Np.Props.C03
 open MvPolynomial
@@ -91,4 +92,42 @@ theorem regenerate_attrs (rc rn : Bool) (p : Poly S) (hw : WF p) (hne : p.terms 
 /-- non-vacuity: unsorted rows, an all-zero term and an unused name; both flags off -/
 example : (fromAttributes false false (some [0, 3]) [[0, 1], [0, 0], [0, 2]] [(0 : Int), 1, 3]).map
       (fun p => (p.names, p.terms)) = some ([3], [([0], 1), ([2], 3)]) := by decide
+/-! ### exact characterisation of the constructor (Np/Proofs/Construct.lean) -/
+
+/-- **exact success condition and result** of `polynomial_from_attributes`: as many coefficient arrays as rows, as
+many names as columns, names duplicate-free, rows duplicate-free *after cleaning* (a zero-coefficient copy of a row
+is removed first when `retain_coefficients` is off); the result is the cleaned raw polynomial — nothing else is
+accepted, nothing else is returned -/
+theorem fromAttributes_iff (rc rn : Bool) (names : Option (List Name)) (expos : List Expo) (cols : List S)
+    (r : Poly S) :
+    fromAttributes rc rn names expos cols = some r ↔
+      cols.length = expos.length ∧
+      (attrNames names expos).length = (expos.headD []).length ∧
+      (attrNames names expos).Nodup ∧
+      (clean rc rn (rawPoly names expos cols)).expos.Nodup ∧
+      r = clean rc rn (rawPoly names expos cols) :=
+  fromAttributes_some_iff rc rn names expos cols r
+
+/-- **every polynomial the constructor returns is well-formed** (rectangular input; all four flag settings; raw rows
+may repeat) -/
+theorem fromAttributes_wellformed (rc rn : Bool) (names : Option (List Name)) (expos : List Expo)
+    (cols : List S) (r : Poly S) (h : fromAttributes rc rn names expos cols = some r)
+    (hrect : ∀ e ∈ expos, e.length = (expos.headD []).length) : WF r :=
+  fromAttributes_WF rc rn names expos cols r h hrect
+
+/-- **… and denotes exactly the terms passed in**: `Σ cols[k]·x^expos[k]` over the given (or default) names -/
+theorem fromAttributes_denotes (rc rn : Bool) (names : Option (List Name)) (expos : List Expo)
+    (cols : List S) (r : Poly S) (h : fromAttributes rc rn names expos cols = some r) :
+    den r = denT (attrNames names expos) (List.zip expos cols) :=
+  fromAttributes_den rc rn names expos cols r h
+
+/-- **regeneration**: a well-formed polynomial rebuilt from its own `(exponents, coefficients, names)` is `clean` of
+itself — no side condition — hence itself under `retain_* = True` or when already clean -/
+theorem regenerate_wellformed (rc rn : Bool) (p : Poly S) (hw : WF p) (hne : p.terms ≠ []) :
+    regenerate rc rn p = some (clean rc rn p) := regenerate_WF rc rn p hw hne
+theorem regenerate_identity (p : Poly S) (hw : WF p) (hne : p.terms ≠ []) :
+    regenerate true true p = some p := regenerate_retain p hw hne
+theorem regenerate_clean_fixed (rc rn : Bool) (p : Poly S) (hw : WF p) (hne : p.terms ≠ [])
+    (hcl : clean rc rn p = p) : regenerate rc rn p = some p := regenerate_fixed rc rn p hw hne hcl
+
 end Np.Props.C03
